@@ -63,7 +63,13 @@ EXPLANATION = (
     "lease records survive the relocation of the extra-lease block: MutableShareFile._change_container_size reads count field + "
     "num_extra_leases * LEASE_SIZE bytes at the header's extra-lease offset before it modifies the file, writes exactly those bytes "
     "where it points the header to, and writes nothing afterwards that may overlap the copy (old and new block overlap whenever "
-    "the container grows by less than the block size; only a fill of at most new - position bytes is provably disjoint); (14) "
+    "the container grows by less than the block size; only a fill of at most new - position bytes is provably disjoint); (13, = "
+    "C25.12 / C25.5) a lease record read from a hashed-secret (v2) container is written back with the field values it was read "
+    "with: HashedLeaseSerializer.serialize hashes only under a type test that no stored-lease wrapper passes, the wrapper is not "
+    "a subclass of the plain lease, every lease-producing ILeaseInfo method that is used (renew) is overridden by the wrapper - "
+    "not left to proxyForInterface, which would return the bare LeaseInfo holding the stored hashes - and returns the wrapper "
+    "around the wrapped lease's own renewed copy with the same hash function, and the containers hand _write_lease_record only "
+    "given / stored / wrapper-derived leases; (14) "
     "MutableShareFile._write_share_data writes into the data region only after _change_container_size(f, >= offset + len(data)) "
     "or under the fact (branch or assertion) that offset + len(data) fits below the extra-lease offset / inside the existing "
     "data, and every such write (the data, a b'\\x00' * n / bytes(n) fill) ends at or before DATA_OFFSET + offset + len(data) - "
@@ -1779,7 +1785,12 @@ def _edge_lin(fnm, n, lab):
 def _rule_records_stay(ctx, idx):
     # 13: the relocation of the extra-lease block when the container grows.  C25.10 decides exactly the condition
     # this property needs (the bytes that were encoded are the bytes found at the place the header names afterwards).
-    ctx.include("C25", ["C25.10"], "C38.13")
+    # C25.12 / C25.5 decide the other way a stored record stops decoding to what was encoded: the newest lease schema stores
+    # H(secret); a stored lease is handed out in a wrapper type so that the serializer writes its fields as they are.  If a
+    # lease derived from a stored one (renew) leaves the wrapper, serialize hashes the stored H(s) again and the record
+    # written back decodes to H(H(s)): unserialize(serialize(x)) != x for the lease that was read.  (C25 includes nothing:
+    # no cycle.)  Adopted ids: C38.13.10, C38.13.12, C38.13.5.
+    ctx.include("C25", ["C25.10", "C25.12", "C25.5"], "C38.13")
 
     with ctx.rule("C38.14", "R1/R5", "MutableShareFile._write_share_data: every write into the data region (zero fill, the data) "
                   "happens only after the container was grown to offset + len(data) or under the fact that offset + len(data) "
